@@ -40,14 +40,20 @@ func c14Table(lss int, pmbr bool, i1, i2 int) *Table {
 }
 
 // c14SameLog asserts that two devices received the same sequence of writes (offset, length, bytes).
-func c14SameLog(a, b *vpdev.MemDev) {
+// With skipCRC the two CRC words of the header sectors (records of one sector that start with the
+// GPT signature) are not compared: they are functions of the bytes that are compared.
+func c14SameLog(a, b *vpdev.MemDev, lss int, skipCRC bool) {
 	vp.Assert(len(a.Log) == len(b.Log), "both executions issue the same number of writes")
 	for i := range a.Log {
 		ra, rb := a.Log[i], b.Log[i]
 		vp.Assert(ra.Off == rb.Off, "same write offset in both executions")
 		vp.Assert(len(ra.Data) == len(rb.Data), "same write length in both executions")
+		hdr := skipCRC && len(ra.Data) == lss && ra.Data[0] == 0x45 && ra.Data[1] == 0x46
 		var diff byte
 		for j := range ra.Data {
+			if hdr && ((j >= 16 && j < 20) || (j >= 88 && j < 92)) {
+				continue
+			}
 			diff |= ra.Data[j] ^ rb.Data[j]
 		}
 		vp.Assert(diff == 0, "same bytes written in both executions")
@@ -68,9 +74,7 @@ func c14WriteTwice(lss int, pmbr bool, i1, i2 int) {
 	d1 := vpdev.NewMemDev("diskA", -1)
 	d2 := vpdev.NewMemDev("diskB", -1)
 	err1 := t1.Write(d1, size)
-	vp.Assert(vp.NondetSources() == 0, "gpt.Table.Write with all GUIDs given consults no clock, random source or map order")
 	err2 := t2.Write(d2, size)
-	vp.Assert(vp.NondetSources() == 0, "second execution consults no clock, random source or map order")
 	vp.Assert(err1 == nil, "first execution accepted")
 	vp.Assert(err2 == nil, "second execution accepted")
 	want := 4
@@ -78,27 +82,47 @@ func c14WriteTwice(lss int, pmbr bool, i1, i2 int) {
 		want = 5
 	}
 	vp.Assert(len(d1.Log) == want, "protective MBR (if any), two arrays, two headers")
-	c14SameLog(d1, d2)
-	// the same Table OBJECT written again (Write normalised its fields the first time): same bytes again
+	c14SameLog(d1, d2, lss, false)
+	// the same Table OBJECT written again (Write filled in End/Size of its partitions the first time):
+	// same offsets and same bytes again. (The CRC words are not compared here: they are the same function
+	// of the compared bytes, but the filled-in fields make the two CRC terms syntactically different and
+	// the comparison of two 2048-step CRC chains is beyond the solvers.)
 	d3 := vpdev.NewMemDev("diskC", -1)
 	err3 := t1.Write(d3, size)
-	vp.Assert(vp.NondetSources() == 0, "rewrite of the same object consults no clock, random source or map order")
 	vp.Assert(err3 == nil, "writing the same table object a second time is accepted")
-	c14SameLog(d1, d3)
+	c14SameLog(d1, d3, lss, true)
+	vp.Assert(vp.NondetSources() == 0, "gpt.Table.Write with all GUIDs given consults no clock, random source or map order")
 	vp.Cover("written twice")
 }
 
-func VP_C14_gpt_write_twice_512()      { c14WriteTwice(512, true, 1, 2) }
+func VP_C14_gpt_write_twice_512()       { c14WriteTwice(512, true, 1, 2) }
 func VP_C14_gpt_write_twice_512_nombr() { c14WriteTwice(512, false, 128, 3) }
-func VP_C14_gpt_write_twice_4096()     { c14WriteTwice(4096, true, 7, 2) }
+func VP_C14_gpt_write_twice_4096()      { c14WriteTwice(4096, true, 7, 2) }
 
-// c14RewriteRead: Write(T) on a disk of the given size; Read from the bytes alone; Write(result of
-// Read) onto the same disk: the second write sequence is byte-identical to the first, the
-// regions written do not overlap, hence no byte of the disk changes.
-func c14RewriteRead(diskSize int64, lss int, pmbr bool, i1, i2 int) {
+// c14Shaped returns an arbitrary partition range inside [first, last]: the start is any of the first
+// smask+1 usable LBAs, the end any LBA from first+smask on (the shape keeps start <= end visible to the
+// engine without a solver call, so that Write's consistency switch does not fork).
+func c14Shaped(pfx string, first, last, smask, emask uint64) (s, e uint64) {
+	s = first + vp.U64(pfx+".startoff")&smask
+	e = first + smask + vp.U64(pfx+".endoff")&emask
+	vp.Assume(e <= last)
+	return s, e
+}
+
+// c14RewriteRead: Write(T) on a disk of the given size (start/end LBAs and attribute words
+// arbitrary); Read from the bytes alone; Write(result of Read) onto the same disk: the second write
+// sequence is byte-identical to the first (CRC words included) and the regions written by one
+// Write do not overlap, hence no byte of the disk changes.
+func c14RewriteRead(diskSize int64, lss int, pmbr bool, i1, i2 int, smask, emask uint64) {
 	sectors := uint64(diskSize) / uint64(lss)
-	c14Assume(sectors, lss)
-	t := c14Table(lss, pmbr, i1, i2)
+	arraySectors := uint64(128*128) / uint64(lss)
+	first, last := 2+arraySectors, sectors-2-arraySectors
+	s1, e1 := c14Shaped("p1", first, last, smask, emask)
+	s2, e2 := c14Shaped("p2", first, last, smask, emask)
+	a1, a2 := vp.U64("p1.attr"), vp.U64("p2.attr")
+	p1 := &Partition{Index: i1, Start: s1, End: e1, Type: Type(c14TypeA), Name: "EFI System", GUID: c14GuidA, Attributes: a1}
+	p2 := &Partition{Index: i2, Start: s2, End: e2, Type: LinuxFilesystem, Name: "rööt-\U0001F4BE", GUID: c14GuidB, Attributes: a2}
+	t := &Table{Partitions: []*Partition{p1, p2}, LogicalSectorSize: lss, PhysicalSectorSize: lss, GUID: c14DiskG, ProtectiveMBR: pmbr}
 	dev := vpdev.NewMemDev("disk", diskSize)
 	err := t.Write(dev, diskSize)
 	vp.Assert(err == nil, "Write accepts the table")
@@ -116,9 +140,25 @@ func c14RewriteRead(diskSize int64, lss int, pmbr bool, i1, i2 int) {
 	t2, err := Read(dev, lss, lss)
 	vp.Assert(err == nil, "Read accepts what Write produced")
 	vp.Assert(!t2.RecoveredFromBackup, "read from the primary copy")
+	vp.Assert(len(t2.Partitions) == 2, "two partitions read back")
+	q1, q2 := t2.Partitions[0], t2.Partitions[1] // slot order
+	if i2 < i1 {
+		q1, q2 = q2, q1
+	}
+	// what was read is what was written; after each check the field is replaced by the (equal)
+	// original expression so that the second Write works on syntactically the same values
+	vp.Assert(q1.Start == s1, "p1 start read back")
+	vp.Assert(q1.End == e1, "p1 end read back")
+	vp.Assert(q1.Size == (e1-s1+1)*uint64(lss), "p1 size read back")
+	vp.Assert(q1.Attributes == a1, "p1 attributes read back")
+	vp.Assert(q2.Start == s2, "p2 start read back")
+	vp.Assert(q2.End == e2, "p2 end read back")
+	vp.Assert(q2.Size == (e2-s2+1)*uint64(lss), "p2 size read back")
+	vp.Assert(q2.Attributes == a2, "p2 attributes read back")
+	q1.Start, q1.End, q1.Size, q1.Attributes = s1, e1, (e1-s1+1)*uint64(lss), a1
+	q2.Start, q2.End, q2.Size, q2.Attributes = s2, e2, (e2-s2+1)*uint64(lss), a2
 	vp.Cover("read back")
 	err = t2.Write(dev, diskSize)
-	vp.Assert(vp.NondetSources() == 0, "Write, Read, Write consult no clock, random source or map order")
 	vp.Assert(err == nil, "a table that was read can be written")
 	vp.Assert(len(dev.Log) == 2*n1, "the rewrite issues the same number of writes")
 	for i := 0; i < n1; i++ {
@@ -131,10 +171,27 @@ func c14RewriteRead(diskSize int64, lss int, pmbr bool, i1, i2 int) {
 		}
 		vp.Assert(diff == 0, "rewriting a table that was read from disk changes nothing")
 	}
+	vp.Assert(vp.NondetSources() == 0, "Write, Read, Write consult no clock, random source or map order")
 	vp.Cover("rewritten")
 }
 
-func VP_C14_gpt_rewrite_read_1m_512()  { c14RewriteRead(1<<20, 512, true, 1, 2) }
-func VP_C14_gpt_rewrite_read_min_512() { c14RewriteRead(70*512, 512, false, 128, 3) }
-func VP_C14_gpt_rewrite_read_3t_512()  { c14RewriteRead(3<<40, 512, true, 5, 2) }
-func VP_C14_gpt_rewrite_read_1g_4096() { c14RewriteRead(1<<30, 4096, true, 2, 77) }
+func VP_C14_gpt_rewrite_read_1m_512()  { c14RewriteRead(1<<20, 512, true, 1, 2, 15, 0xffff) }
+func VP_C14_gpt_rewrite_read_min_512() { c14RewriteRead(70*512, 512, false, 128, 3, 1, 1) }
+func VP_C14_gpt_rewrite_read_3t_512()  { c14RewriteRead(3<<40, 512, true, 5, 2, 0xffff, 0x1ffffffff) }
+func VP_C14_gpt_rewrite_read_1g_4096() { c14RewriteRead(1<<30, 4096, true, 2, 77, 15, 0xfffff) }
+
+// VP_C14_gpt_detector_random_guid is NOT part of the claim (the GUIDs are not given here): it shows
+// that the checks above are not blind - a table without disk and partition GUIDs makes Write draw
+// random GUIDs and the engine's log of nondeterminism sources sees it (if it did not, this harness
+// would have no reachable Cover and be reported as vacuous).
+func VP_C14_gpt_detector_random_guid() {
+	p := &Partition{Index: 1, Start: 2048, End: 4095, Type: LinuxFilesystem, Name: "x"}
+	t := &Table{Partitions: []*Partition{p}, LogicalSectorSize: 512, PhysicalSectorSize: 512}
+	d := vpdev.NewMemDev("disk", 1<<22)
+	err := t.Write(d, 1<<22)
+	if err == nil {
+		if vp.NondetSources() > 0 {
+			vp.Cover("missing GUIDs are drawn at random and the nondeterminism log sees it")
+		}
+	}
+}
